@@ -983,6 +983,8 @@ func (fr *frame) applyContractSig(st *State, call *ast.CallExpr, name string, si
 	for _, v := range results {
 		st.assumeLoaded(v)
 	}
+	// inside old(...) the result names are visible too (they are values, not state)
+	env2.old = &SpecEnv{reg: fc.reg, pkg: p, st: pre, vars: env2.vars}
 	for _, cl := range c.Clauses {
 		if cl.Kind == "ensures" {
 			st.assume(env2.evalBool(cl.Expr))
